@@ -155,10 +155,32 @@ def lean_audit(pid, prop_modules, all_modules):
 # Go side
 # ------------------------------------------------------------------------------------------------
 
+# files whose `time.Now()` is redirected to the package's verifNow() (virtual clock); the copy is
+# regenerated from the CURRENT source on every build, so the checked program is derived from /repo
+INSTRUMENT_CLOCK = ["container/lru/expirable.go"]
+
+
+def instrument():
+    d = os.path.join(WORK, "instr")
+    shutil.rmtree(d, ignore_errors=True)
+    os.makedirs(d, exist_ok=True)
+    for rel in INSTRUMENT_CLOCK:
+        src = os.path.join(REPO, rel)
+        if not os.path.exists(src):
+            continue
+        txt = open(src).read()
+        n = txt.count("time.Now()")
+        txt = txt.replace("time.Now()", "verifNow()")
+        txt += "\n// verif: %d time.Now() call(s) redirected to verifNow()\nvar _ = time.Second\n" % n
+        with open(os.path.join(d, rel[:-3].replace("/", "__") + ".go"), "w") as f:
+            f.write(txt)
+
+
 def write_overlay():
     """overlay.json: package-internal accessors (guard tag `verif`) added to /repo packages without
     touching /repo"""
     os.makedirs(WORK, exist_ok=True)
+    instrument()
     repl = {}
     for src in sorted(glob.glob(os.path.join(HARNESS, "overlay", "*.go.txt"))):
         base = os.path.basename(src)[:-len(".go.txt")]
